@@ -141,7 +141,7 @@ for k1, k2, tier in [(1, 1, "quick"), (1, 2, "quick"), (0, 1, "quick"), (2, 2, "
       unwindset={r"^memcmp\.0$": 68}, stubs=SYNC_STUBS, family="record_id_order")
 for k in (0, 2):
     h("fingerprint_input_%d" % k, "sync::fingerprint_input::<S, %d>" % k, ["C01", "C08"], "quick", unwind=4,
-      unwindset={r"^memcmp\.0$": 122, r"crypto::hasher_update\.0": 40, r"blake3::Hasher::update\.0": 40}, stubs=SYNC_STUBS + ["hasher"], family="fingerprint_input", kani_only=True, witness="fp")
+      unwindset={r"^memcmp\.0$": 122, r"crypto::hasher_update\.0": 112, r"blake3::Hasher::update\.0": 112}, stubs=SYNC_STUBS + ["hasher"], family="fingerprint_input", kani_only=True, witness="fp")
 h("capability_merge", "sync::capability_merge::<S>", ["C07"], "quick", unwind=4, unwindset={r"^memcmp\.0$": 34, r"crypto::ideal_public\.0": 33, r"zeroize::Zeroize>::zeroize\.0": 34}, stubs=SYNC_STUBS)
 h("capability_raw_roundtrip", "sync::capability_raw_roundtrip::<S>", ["C07", "C09"], "quick", unwind=4,
   unwindset={r"^memcmp\.0$": 34, r"crypto::ideal_public\.0": 33, r"zeroize::Zeroize>::zeroize\.0": 34}, stubs=SYNC_STUBS)
